@@ -220,7 +220,7 @@ def e_pair(ch: Choices) -> tuple[Program, dict[str, Any]]:
             return body
 
         extra = [mk]
-    run = run_w(prog, knobs, ch, nworkers=2 + ch.pick("w.n", 2), strategy=ch.choice("w.strategy", ["random", "pct", "random"]),
+    run = run_w(prog, knobs, ch, nworkers=2 + ch.pick("w.n", 2), strategy=ch.choice("w.strategy", ["random", "pct", "random", "stall"]),
                 pct_depth=1 + ch.pick("w.depth", 3), extra_workers=extra)
     return prog, run
 
